@@ -432,6 +432,37 @@ func runKeys(rng *rand.Rand, n int, out *Out, args []string) {
 				}
 			}
 		}
+		// changes of LENGTH of the three fields (the single-bit corruptions above keep the length): bytes appended (zero,
+		// non-zero, a copy of the field), the last byte removed, a trailing / leading byte prepended, the field emptied
+		for _, f := range fields {
+			variants := []func(b []byte) []byte{
+				func(b []byte) []byte { return append(append([]byte{}, b...), 0) },
+				func(b []byte) []byte { return append(append([]byte{}, b...), 0xff) },
+				func(b []byte) []byte { return append(append([]byte{}, b...), 1, 2, 3, 4) },
+				func(b []byte) []byte { return append(append([]byte{}, b...), b...) },
+				func(b []byte) []byte { return append([]byte{}, b[:len(b)-1]...) },
+				func(b []byte) []byte { return append([]byte{0}, b...) },
+				func(b []byte) []byte { return []byte{} },
+			}
+			for vi, v := range variants {
+				os.WriteFile(tmp, data, 0600)
+				rewrite(tmp, func(m map[string]interface{}) {
+					o := f.get(m)
+					hx := strings.TrimPrefix(o[f.key].(string), "0x")
+					raw, err := hex.DecodeString(hx)
+					if err != nil {
+						return
+					}
+					o[f.key] = "0x" + hex.EncodeToString(v(raw))
+				})
+				cf, err := wallet.ReadKeyFile(tmp)
+				if err == nil {
+					err = safeDecrypt(cf, pw)
+				}
+				out.Count("length-corruption:" + f.name)
+				out.Oracle(err != nil, "corrupted-keyfile-accepted", M{"field": f.name, "length_variant": vi})
+			}
+		}
 		// not part of the statement, counted only: the recorded base address is not authenticated
 		os.WriteFile(tmp, data, 0600)
 		rewrite(tmp, func(m map[string]interface{}) { m["baseAddress"] = types.PillarContract.String() })
@@ -441,4 +472,15 @@ func runKeys(rng *rand.Rand, n int, out *Out, args []string) {
 			}
 		}
 	}
+}
+
+// Decrypt under recover: a key file whose fields have unusual lengths must be refused, not crash the wallet
+func safeDecrypt(cf *wallet.KeyFile, pw string) (err error) {
+	defer func() {
+		if r := recover(); r != nil {
+			err = fmt.Errorf("panic: %v", r)
+		}
+	}()
+	_, err = cf.Decrypt(pw)
+	return err
 }
